@@ -230,7 +230,8 @@ class DTWSettings:
             psi_1b = psi_1e = psi_2b = psi_2e = self.psi
         elif type(self.psi) in [tuple, list]:
             psi_1b, psi_1e, psi_2b, psi_2e = self.psi
-        return psi_1b, psi_1e, psi_2b, psi_2e
+        # Plain Python integers: index arithmetic with (unsigned) NumPy integers wraps around
+        return int(psi_1b), int(psi_1e), int(psi_2b), int(psi_2e)
 
     def __str__(self):
         r = ''
